@@ -63,9 +63,11 @@ MAX_CALLS = 8              # recorded calls per kernel per case (all are counted
 
 # kernel codes of Model/EntryC19.v
 K_TLI, K_SKEL, K_IL, K_RECON, K_PROP, K_ARR, K_ACC, K_TRACE, K_FILL = 1, 2, 3, 4, 5, 6, 7, 8, 9
+K_HULL, K_MED, K_RT, K_AUG, K_EMD = 10, 11, 12, 13, 14
 MONITORED = {K_TLI: "table_lookup_index", K_SKEL: "skeletonize_loop", K_IL: "index_lookup",
              K_RECON: "grey_reconstruction_loop", K_PROP: "propagate", K_ARR: "augmenting_row_reduction", K_ACC: "_all_connected_components",
-             K_TRACE: "trace_outlines", K_FILL: "fill_labeled_holes_loop"}
+             K_TRACE: "trace_outlines", K_FILL: "fill_labeled_holes_loop", K_HULL: "convex_hull_ijv",
+             K_MED: "median_filter", K_RT: "reduction_transfer", K_AUG: "augment", K_EMD: "emd_hat_int32"}
 
 
 # =========================================================================================== spy
@@ -276,6 +278,95 @@ def _mk_spies(real):
                                                to_do_count, *a, **kw)
     spies["fill_labeled_holes_loop"] = fill_labeled_holes_loop
 
+    def convex_hull_ijv(in_labels_ijv, indexes_in, *a, **kw):
+        if _Rec.calls is not None and _note("convex_hull_ijv"):
+            try:
+                ijv = np.asarray(in_labels_ijv)
+                idxs = np.asarray(indexes_in).ravel()
+                if ijv.ndim != 2 or ijv.shape[1] != 3 or ijv.shape[0] == 0 or (ijv < 0).any() or (idxs < 0).any():
+                    _unmon("convex_hull_ijv", rejected=True)     # the asserts / max() of an empty array raise first
+                elif ijv.shape[0] > 1200:
+                    _unmon("convex_hull_ijv", too_large=True)
+                else:
+                    _rec(K_HULL, "convex_hull_ijv", [K_HULL, [[int(v) for v in r] for r in ijv.tolist()], _ints(idxs)])
+            except Exception as e:      # noqa
+                _unmon("convex_hull_ijv", spy_error=repr(e))
+        return real["convex_hull_ijv"](in_labels_ijv, indexes_in, *a, **kw)
+    spies["convex_hull_ijv"] = convex_hull_ijv
+
+    def median_filter(data, mask, output, radius, percent, *a, **kw):
+        if _Rec.calls is not None and _note("median_filter"):
+            try:
+                arrs = [np.asarray(x) for x in (data, mask, output)]
+                ok = all(x.ndim == 2 and x.dtype == np.uint8 and x.flags.c_contiguous for x in arrs)
+                if (not ok or not (0 <= int(percent) <= 100) or arrs[0].shape != arrs[1].shape
+                        or arrs[0].shape != arrs[2].shape):
+                    _unmon("median_filter", rejected=True)       # Cython's buffer check / the ValueErrors come first
+                else:
+                    pre = [K_MED]
+                    for x in arrs:
+                        pre += [int(x.shape[0]), int(x.shape[1]), int(x.strides[0]), int(x.strides[1])]
+                    pre += [int(radius), int(percent)]
+                    _rec(K_MED, "median_filter", pre)
+            except Exception as e:      # noqa
+                _unmon("median_filter", spy_error=repr(e))
+        return real["median_filter"](data, mask, output, radius, percent, *a, **kw)
+    spies["median_filter"] = median_filter
+
+    def reduction_transfer(ii, j, idx, count, x, u, v, c, *a, **kw):
+        if _Rec.calls is not None and _note("reduction_transfer"):
+            try:
+                if _small(ii, j, idx, count, x):
+                    pre = [K_RT, _ints(ii), _ints(j), _ints(idx), _ints(count), _ints(x), int(np.asarray(u).size),
+                           int(np.asarray(v).size), int(np.asarray(c).size)]
+                    _rec(K_RT, "reduction_transfer", pre, pre if np.asarray(j).size <= 300 else None)
+                else:
+                    _unmon("reduction_transfer", too_large=True)
+            except Exception as e:      # noqa
+                _unmon("reduction_transfer", spy_error=repr(e))
+        return real["reduction_transfer"](ii, j, idx, count, x, u, v, c, *a, **kw)
+    spies["reduction_transfer"] = reduction_transfer
+
+    def augment(n, ii, jj, idx, count, x, y, u, v, c, *a, **kw):
+        if _Rec.calls is not None and _note("augment"):
+            try:
+                if _small(ii, jj, idx, count, x, y) and np.asarray(jj).size <= 6000:
+                    _rec(K_AUG, "augment", [K_AUG, int(n), _ints(ii), _ints(jj), _ints(idx), _ints(count), _ints(x),
+                                            _ints(y), int(np.asarray(u).size), int(np.asarray(v).size),
+                                            int(np.asarray(c).size)])
+                else:
+                    _unmon("augment", too_large=True)
+            except Exception as e:      # noqa
+                _unmon("augment", spy_error=repr(e))
+        return real["augment"](n, ii, jj, idx, count, x, y, u, v, c, *a, **kw)
+    spies["augment"] = augment
+
+    def _ext(arr, addr):
+        """int32 elements between addr and the end of the allocation that owns arr's memory"""
+        base = arr
+        while isinstance(getattr(base, "base", None), np.ndarray):
+            base = base.base
+        end = base.ctypes.data + base.nbytes
+        return int((end - addr) // 4)
+
+    def emd_hat_int32(p, q, c, *a, **kw):
+        if _Rec.calls is not None and _note("emd_hat_int32"):
+            try:
+                cs = np.asarray(c)
+                if cs.ndim != 2 or len(p) != cs.shape[0] or len(q) != cs.shape[1]:
+                    _unmon("emd_hat_int32", rejected=True)       # the two asserts come first
+                else:
+                    pc, qc, cc = (np.ascontiguousarray(x, np.int32) for x in (p, q, c))   # what the kernel converts
+                    crowext = min([_ext(cc, cc.ctypes.data + i * cc.strides[0]) for i in range(cc.shape[0])] or [0])
+                    _rec(K_EMD, "emd_hat_int32",
+                         [K_EMD, int(len(p)), int(len(q)), int(pc.shape[0]) if pc.ndim == 1 else -1, _ext(pc, pc.ctypes.data),
+                          int(qc.shape[0]) if qc.ndim == 1 else -1, _ext(qc, qc.ctypes.data),
+                          int(cc.shape[0]), int(cc.shape[1]), crowext])
+            except Exception as e:      # noqa
+                _unmon("emd_hat_int32", spy_error=repr(e))
+        return real["emd_hat_int32"](p, q, c, *a, **kw)
+    spies["emd_hat_int32"] = emd_hat_int32
+
     def passthrough(name):
         def spy(*a, **kw):
             if _Rec.calls is not None and _note(name):
@@ -386,7 +477,8 @@ def _own_cases(ctx):
     def lab(a, fn, **kw):
         a = np.asarray(a)
         out.append({"owner": "own", "case": dict({"fn": fn, "a": a.astype(int).tolist(), "shape": list(a.shape)}, **kw)})
-    shapes = [(1, 1), (1, 2), (2, 1), (1, 7), (7, 1), (2, 2), (3, 3), (1, 40), (40, 1), (3, 50), (12, 12)]
+    shapes = [(1, 1), (1, 2), (2, 1), (1, 7), (7, 1), (3, 3), (3, 50), (12, 12)] if ctx.quick() else \
+        [(1, 1), (1, 2), (2, 1), (1, 7), (7, 1), (2, 2), (3, 3), (1, 40), (40, 1), (3, 50), (12, 12)]
     for fn in ("fill_labeled_holes", "skeletonize", "thin", "binary_shrink", "convex_hull", "get_outline_pts",
                "all_neighbors", "grey_reconstruction", "median_filter", "propagate", "table_lookup"):
         for (h, w) in shapes:
@@ -416,7 +508,7 @@ def _own_cases(ctx):
 
 def generate(ctx):
     tier = ctx.tier
-    want = ctx.n(230, 1500)
+    want = ctx.n(200, 1500)
     cases = []
     for name in OWNERS:
         t = time.time()
@@ -648,6 +740,20 @@ def _asan_verdict(o):
     return None
 
 
+def _run_model_parallel(ctx, entry, args, jobs=8):
+    """ctx.run_model in round-robin chunks on a thread pool (one extracted-program process per chunk)"""
+    from concurrent.futures import ThreadPoolExecutor
+    if len(args) < 200:
+        return ctx.run_model(entry, args)
+    chunks = [list(range(k, len(args), jobs)) for k in range(jobs)]
+    res = [None] * len(args)
+    with ThreadPoolExecutor(max_workers=jobs) as ex:
+        for ch, out in zip(chunks, ex.map(lambda ch: ctx.run_model(entry, [args[i] for i in ch]), chunks)):
+            for i, r in zip(ch, out):
+                res[i] = r
+    return res
+
+
 def check(ctx, cases, outs):
     verdicts = [None] * len(cases)
     # (B) kernel_pre_K on every recorded call
@@ -672,18 +778,14 @@ def check(ctx, cases, outs):
                 args.append(call["pre"]); where.append((ci, k))
                 ctx.count("pre:" + call["name"])
             else:
-                ctx.count(("too-large:" if call.get("too_large") else "unmonitored:") + call["name"])
+                ctx.count(("too-large:" if call.get("too_large") else "rejected-by-kernel:" if call.get("rejected")
+                           else "not-2d:" if call.get("not_2d") else "unmonitored:") + call["name"])
         for name, cnt in (o.get("counts") or {}).items():
             ctx.count("calls:" + name, cnt)
         verdicts[ci] = v
-    if args:
-        res = ctx.run_model("entry_pre", args)
-        for (ci, k), r in zip(where, res):
-            if r != 1 and verdicts[ci] is None:
-                call = outs[ci]["calls"][k]
-                verdicts[ci] = "kernel_pre_%s is FALSE on recorded call #%d of this case: args=%s" % (
-                    call["name"], k, json.dumps(call["pre"])[:600])
-    # (C) the address-sanitised build (main pass already under ASan in the thorough tier)
+    # (C) the address-sanitised build runs concurrently with the evaluation of the preconditions
+    asan_box = {}
+    asan_thread = None
     if not ctx.stage_info.get("asan"):
         if len(cases) <= 80:
             sel = list(range(len(cases)))
@@ -693,11 +795,32 @@ def check(ctx, cases, outs):
             k = ctx.n(700, 4000)
             pick = ctx.rng.choice(len(rest), size=min(len(rest), k), replace=False) if rest else []
             sel = own + sorted(rest[int(i)] for i in pick)
+
+        def _asan_job():
+            t = time.time()
+            try:
+                asan_box["outs"] = run_asan(ctx, [cases[i] for i in sel], jobs=6)
+            except Exception as e:      # noqa
+                asan_box["error"] = repr(e)
+            asan_box["t"] = round(time.time() - t, 1)
+        asan_thread = threading.Thread(target=_asan_job)
+        asan_thread.start()
+    if args:
         t = time.time()
-        aouts = run_asan(ctx, [cases[i] for i in sel])
-        ctx.timings["asan_run"] = ctx.timings.get("asan_run", 0) + round(time.time() - t, 1)
+        res = _run_model_parallel(ctx, "entry_pre", args, jobs=8)
+        ctx.timings["pre_eval"] = ctx.timings.get("pre_eval", 0) + round(time.time() - t, 1)
+        for (ci, k), r in zip(where, res):
+            if r != 1 and verdicts[ci] is None:
+                call = outs[ci]["calls"][k]
+                verdicts[ci] = "kernel_pre_%s is FALSE on recorded call #%d of this case: args=%s" % (
+                    call["name"], k, json.dumps(call["pre"])[:600])
+    if asan_thread is not None:
+        asan_thread.join()
+        if "error" in asan_box:
+            raise RuntimeError("ASan pass failed: " + asan_box["error"])
+        ctx.timings["asan_run"] = ctx.timings.get("asan_run", 0) + asan_box.get("t", 0)
         ctx.count("asan_cases", len(sel))
-        for i, o in zip(sel, aouts):
+        for i, o in zip(sel, asan_box["outs"]):
             v = _asan_verdict(o)
             if v and verdicts[i] is None:
                 verdicts[i] = v
